@@ -385,4 +385,56 @@ theorem loopsOkList_of_statements : ∀ (t : Stmt) (l : List Stmt), loopsOk t = 
     simp only [statementsOf, pure, Except.pure, Except.ok.injEq] at h; subst h; simpa [loopsOk] using h1
   | .loop n b, l, h1, h => loopsOkList_of_iter b l (by simp only [loopsOk, Bool.and_eq_true] at h1; exact h1.2) (by simpa [statementsOf] using h)
 
+/-! ### error classes: every rejection is a `JaqalError` -/
+
+theorem mkLoop_class (c : Val) (b : Stmt) : JaqalOnly (mkLoop c b) := by
+  unfold mkLoop
+  exact JaqalOnly.ite (JaqalOnly.jaqal _) (JaqalOnly.pure _)
+
+theorem callPos_class (gd : GateDef) : JaqalOnly (GateDef.callPos gd []) := by
+  rw [callPos_nil]
+  exact JaqalOnly.ite (JaqalOnly.ok _) (JaqalOnly.jaqal _)
+
+mutual
+  theorem visitStmt_class (pd md : GateDef) : ∀ (s : Stmt), JaqalOnly (visitStmt pd md s)
+    | .gate _ _ _ => JaqalOnly.pure _
+    | .loop c b => by
+      simp only [visitStmt]
+      apply JaqalOnly.bind (visitStmt_class pd md b)
+      intro b' _
+      exact mkLoop_class _ _
+    | .block par sub it body => by
+      simp only [visitStmt]
+      apply JaqalOnly.ite
+      · apply JaqalOnly.bind (callPos_class pd)
+        intro p _
+        apply JaqalOnly.bind (visitList_class pd md body)
+        intro l _
+        apply JaqalOnly.bind (callPos_class md)
+        intro m _
+        exact JaqalOnly.pure _
+      · apply JaqalOnly.bind (visitList_class pd md body)
+        intro l _
+        exact JaqalOnly.pure _
+  theorem visitList_class (pd md : GateDef) : ∀ (l : List Stmt), JaqalOnly (visitList pd md l)
+    | [] => JaqalOnly.pure _
+    | s :: r => by
+      simp only [visitList]
+      apply JaqalOnly.bind (visitStmt_class pd md s)
+      intro s' _
+      apply JaqalOnly.bind (visitList_class pd md r)
+      intro r' _
+      exact JaqalOnly.pure _
+end
+
+theorem visitMacros_class (pd md : GateDef) : ∀ (ms : List Macro), JaqalOnly (visitMacros pd md ms)
+  | [] => JaqalOnly.pure _
+  | m :: r => by
+    simp only [visitMacros]
+    apply JaqalOnly.bind (visitStmt_class pd md m.body)
+    intro b _
+    apply JaqalOnly.bind (visitMacros_class pd md r)
+    intro r' _
+    exact JaqalOnly.pure _
+
 end Jaqal.ExpandSubcircuits
